@@ -1,5 +1,5 @@
 # Data for tools_manifest.py (exec'd): CLAIMS, NA, ENGINES, FIX_COMMITS
-FIX_COMMITS = ["14a7bc4", "34fd9b1", "f8f4ffb", "61fde54", "7a81c99", "eafa42d", "5421546", "4559052", "c41828a", "7b438d4", "4a48516", "61b5e06", "42978b1", "eea3f8e", "9d23db9", "daf7731", "0f1f996", "7d5224d", "eade19f", "93aedf4"]
+FIX_COMMITS = ["14a7bc4", "34fd9b1", "f8f4ffb", "61fde54", "7a81c99", "eafa42d", "5421546", "4559052", "c41828a", "7b438d4", "4a48516", "61b5e06", "42978b1", "eea3f8e", "9d23db9", "daf7731", "0f1f996", "7d5224d", "eade19f", "93aedf4", "d3cd9a8"]
 ENGINES = [
     {"name": "A-index", "path": "engine/index.py, engine/tables.py", "serves_properties": ["C01", "C14"], "kind_free_text": "package index: imports, classes, C3 MRO, constants, declaration tables, call graph"},
     {"name": "C-arrays", "path": "engine/arrays.py", "serves_properties": ["C02", "C03", "C04", "C05", "C06", "C07", "C08", "C09"], "kind_free_text": "abstract interpreter over the 36 execute bodies and helpers: kind, alias, mask coverage, value dependence, hidden-payload flow, shape, dtype, clamp range, layer selection; closed numpy vocabulary"},
@@ -199,6 +199,25 @@ ADDED11 = {
     "C13": "C13.e / C14.j accept a handler that returns a non-zero status which every caller hands to sys.exit.",
     "C01": "C01.f accepts an early return under a flag that provably means 'every command finished'.",
 }
+ADDED14 = {
+    "C01": "C01.o: a command object given as an argument value is stored as that object, not as its result name.",
+    "C02": "C02.n: curve commands sort their control points themselves (C08.b); C02.o: the pivot of a partial layer ordering is valid for every legal count.",
+    "C03": "C03.h: the exclusive-or leaves no present cell missing (C06.d's guarded quotient).",
+    "C04": "C04.g: the selected-layer mean is a masked mean; curve segment tests have one strict end.",
+    "C06": "C06.b: a sorted input list is not paired with weights that stay as listed.",
+    "C08": "C08.q: no (+ - *) between the field and a number while neither is known to be floating (narrow integer grids wrap); C08.r: no standard deviation from the mean of the squares.",
+    "C10": "C10.m: L(STRING) lies between the single-line quoted strings and the strings that end at their own closing quote (DFA inclusions); C10.n: number tokens are refused only in the handler of the conversion.",
+    "C11": "C11.i: a failed command is not left finished (C14.f); C11.j: nested list arguments carry their own line.",
+    "C12": "C12.m: nothing is memoised on a command class behind hasattr / getattr.",
+    "C13": "C13.i: a possibly empty answer (get_close_matches, findall, glob ...) is not indexed directly.",
+    "C15": "C15.j: tuple values are text after cleaning (the serialiser quotes them); C15.k: free text of the model reaches the output only through the quoting helpers.",
+    "C17": "C17.c: the handler of the cell parse always raises; C17.d: the header row is the result names themselves.",
+    "C18": "C18.l: the reader applies no value-based masking beyond the missing-value comparison.",
+    "C19": "C19.f: the process-wide registry is read by Program.__init__ only; C19.b: every admitted command reaches the duplicate count.",
+    "C20": "C20.h: a tuple cleans to {text: text}; the raw mapping is returned only under a test of keys and values.",
+}
+for _k, _v in ADDED14.items():
+    CLAIMS[_k]["text"] += " " + _v
 ADDED13 = {
     "C10": "C10.l: every sentence of up to 12 (thorough: 13) token names the grammar derives is accepted by the generated table - one obligation per silently resolved conflict (one known finding: `[a:b, c]`). C10.e also runs the layout forms through the LALR(1) table generated from the extracted productions (yacc's conflict resolution): a form the grammar derives but the generated parser refuses is the violation.",
     "C03": "Engine C: a generator over the inputs is one-shot (a second reader finds an unknown rest); `nomask` under `not any(m.any() for m in masks)` is the empty union of all input masks.",
